@@ -1,6 +1,7 @@
 (* C07 -- Every block the node produces is one every node accepts.
    Statements only; proofs in proofs/ProducerProofs.v, model in model/Producer.v
-   (= /repo HEAD incl. the fixes f62222f, e0300b2, 1214e31, 9879695).
+   (= /repo HEAD e1b5241 incl. the fixes f62222f, e0300b2, 1214e31, 9879695, ffb4da9, 6b3137c,
+   60ba6d1, b8552b5, bb88717, f640126, e1b5241).
 
    Block::create / Mempool::bundle_block / Mempool::can_bundle_block and Block::validate are
    modelled as written; the economic part of generate_consensus_values is the abstract
@@ -25,6 +26,7 @@ Section C07.
   Variable cv : chain -> list N -> block -> cvrec.
   Variable tx_valid : chain -> list N -> tx -> bool.
   Variable gt_ok : chain -> tx -> bool.
+  Variable gt_screen : chain -> tx -> bool.
   Variable work_needed : N -> N -> N -> N -> N.
   Variable supply_ok : chain -> list N -> block -> bool.
   Variable hchain : list N -> N.
@@ -33,11 +35,11 @@ Section C07.
   Notation create := (create chain view cv hchain mroot).
   Notation validate := (validate chain view cv tx_valid gt_ok work_needed mroot).
   Notation node_accepts := (node_accepts chain view cv tx_valid gt_ok work_needed supply_ok mroot).
-  Notation bundle := (bundle chain view cv tx_valid gt_ok work_needed hchain mroot).
+  Notation bundle := (bundle chain view cv tx_valid gt_screen work_needed hchain mroot).
   Notation can_bundle := (can_bundle chain view work_needed).
   Notation intake := (add_transaction_if_validates chain tx_valid).
-  Notation screen := (screen_ticket chain view gt_ok).
-  Notation Known_C07 := (Known_C07 chain view cv tx_valid hchain).
+  Notation screen := (screen_ticket chain view gt_screen).
+  Notation Known_C07 := (Known_C07 chain view cv tx_valid gt_ok work_needed).
   Notation tip_hash := (tip_hash_of chain view).
 
   (* [agreesb cC cV], field by field: what Block::validate recomputes on the finished block
@@ -69,9 +71,10 @@ Section C07.
     /\ e_difficulty V = e_difficulty C
     /\ c_total_rebroadcast_slips cV = nsum (map t_atr_slips (c_rebroadcasts cC))
     /\ c_rebroadcast_hash cV = hchain (map t_id (c_rebroadcasts cC))
+    /\ same_inputs (c_rebroadcasts cC) (c_rebroadcasts cV) = true
     /\ match c_fee_tx cC with
        | Some f => exists f', c_fee_tx cV = Some f' /\ t_id f' = t_id f
-       | None => True
+       | None => c_fee_tx cV = None
        end.
   Proof. exact (agreesb_fields hchain). Qed.
 
@@ -103,11 +106,14 @@ Section C07.
     count_type TIssuance drained = 0 ->
     (v_stake_req (view (n_chain _ n)) = 0 \/ count_type TBlockStake kept = 1) ->
     forallb (tx_valid (n_chain _ n) (n_ledger _ n)) (b_txs b) = true ->
-    work_needed (par_burnfee p) ts (par_ts p) (v_heartbeat (view (n_chain _ n))) <= nsum (map t_work kept) ->
+    work_needed (par_burnfee p) ts (par_ts p) (v_heartbeat (view (n_chain _ n)))
+      <= nsum (map t_work (opt_list gt ++ kept)) ->
     validate dbg n true b = Ok true.
-  Proof. exact (produced_validates_F chain view cv tx_valid gt_ok work_needed hchain mroot). Qed.
+  Proof. exact (produced_validates_F chain view cv tx_valid gt_ok gt_screen work_needed hchain mroot). Qed.
 
-  (* the same as "forall x, ~ Known_C07 x -> P x" *)
+  (* the same as "forall x, ~ Known_C07 x -> P x": Known_C07 = an Issuance-typed pooled transaction,
+     a transaction of the block that does not validate (a pooled input that left the window), kept
+     transactions carrying less than the work needed, a ticket that fails Block::validate's check *)
   Theorem C07_produced_validates_outside_known : forall dbg (n : node chain) creator ts gt drained b p,
     v_tip (view (n_chain _ n)) = Some p ->
     create dbg n creator ts gt drained = Ok b ->
@@ -115,15 +121,16 @@ Section C07.
     let c0 := cv (n_chain _ n) (n_ledger _ n) (pre_block (Some p) (par_hash p) creator ts gt drained) in
     let kept := kept_pool c0 drained in
     let cC := cv (n_chain _ n) (n_ledger _ n) (pre_block (Some p) (par_hash p) creator ts gt kept) in
+    let cV := cv (n_chain _ n) (n_ledger _ n) b in
+    agreesb dbg hchain cC cV = true ->
     cv_types_ok cC = true ->
     (c_fee_tx cC <> None -> gt <> None) ->
-    (forall g, gt = Some g -> is_type TGoldenTicket g = true /\ gt_ok (n_chain _ n) g = true) ->
+    (forall g, gt = Some g -> is_type TGoldenTicket g = true) ->
     pool_types_ok drained = true ->
     kept <> [] ->
     (v_stake_req (view (n_chain _ n)) = 0 \/ count_type TBlockStake kept = 1) ->
-    work_needed (par_burnfee p) ts (par_ts p) (v_heartbeat (view (n_chain _ n))) <= nsum (map t_work kept) ->
     validate dbg n true b = Ok true.
-  Proof. exact (produced_validates_outside_known chain view cv tx_valid gt_ok work_needed hchain mroot). Qed.
+  Proof. exact (produced_validates_outside_known chain view cv tx_valid gt_ok gt_screen work_needed hchain mroot). Qed.
 
   (* Block::create = the plain steps (no filter) on the pool that is left *)
   Theorem C07_create_filters : forall dbg (n : node chain) creator ts gt d p,
@@ -147,9 +154,11 @@ Section C07.
   (* the producer's path: bundle_block returned a block => Blockchain::add_block accepts it
      (golden-ticket count of Blockchain::validate + Block::validate + check_total_supply; the
      last one is C02's subject and enters as the hypothesis [supply_ok], see C07_dust_spend_witness).
-     No hypothesis on the solution of the pooled ticket any more (fix e0300b2).  New with fix
-     1214e31: the hypothesis that what create leaves out did not carry the work the gate counted
-     (listed finding left-out-transaction-carried-the-work). *)
+     No hypothesis on the solution of the pooled ticket (fix e0300b2) -- but what passes the screen
+     of bundle_block must pass Block::validate's ticket check, which since b8552b5 also refuses the
+     all-zero key (listed finding zero-key-ticket-passes-screen).  Since fix 1214e31: what create
+     leaves out must not have carried the work the gate counted (listed finding
+     left-out-transaction-carried-the-work; dead branch for a young pool, C07_young_pool_nothing_left_out). *)
   Theorem C07_bundle_produced_validates : forall dbg (n : node chain) creator m ts gt stake order b m' p,
     v_tip (view (n_chain _ n)) = Some p ->
     bundle dbg n creator m ts gt stake order = Ok (Bundled b, m') ->
@@ -165,6 +174,7 @@ Section C07.
     cv_types_ok cC = true ->
     (c_fee_tx cC <> None -> gt' <> None) ->
     (forall g, gt = Some g -> is_type TGoldenTicket g = true) ->
+    (forall g, gt = Some g -> gt_screen (n_chain _ n) g = true -> gt_ok (n_chain _ n) g = true) ->
     pool_types_ok (m_txs m1) = true ->
     count_type TIssuance (m_txs m1) = 0 ->
     (v_stake_req (view (n_chain _ n)) = 0 \/ count_type TBlockStake kept = 1) ->
@@ -175,7 +185,7 @@ Section C07.
       \/ work_needed (par_burnfee p) ts (par_ts p) (v_heartbeat (view (n_chain _ n))) <= nsum (map t_work kept) ->
     supply_ok (n_chain _ n) (n_ledger _ n) b = true ->
     node_accepts dbg n b = Ok true.
-  Proof. exact (bundle_produced_validates chain view cv tx_valid gt_ok work_needed supply_ok hchain mroot). Qed.
+  Proof. exact (bundle_produced_validates chain view cv tx_valid gt_ok gt_screen work_needed supply_ok hchain mroot). Qed.
 
   (* any other node holding the same chain answers the same: validation reads the chain and
      the ledger, and the ledger is the replay of the chain on every node (C03's invariant,
@@ -202,13 +212,13 @@ Section C07.
     validate dbg n vu b <> Ok true.
   Proof. exact (invalid_gt_rejected chain view cv tx_valid gt_ok work_needed hchain mroot). Qed.
 
-  (* a ticket that reaches Block::create through bundle_block solves the tip *)
+  (* a ticket that reaches Block::create through bundle_block has passed its screen (solves the tip) *)
   Theorem C07_bundled_ticket_solves : forall dbg (n : node chain) creator m ts gt stake order b m' p g,
     v_tip (view (n_chain _ n)) = Some p ->
     bundle dbg n creator m ts gt stake order = Ok (Bundled b, m') ->
     fst (screen n m gt) = Some g ->
-    gt = Some g /\ gt_ok (n_chain _ n) g = true.
-  Proof. exact (bundled_ticket_solves chain view cv tx_valid gt_ok work_needed hchain mroot). Qed.
+    gt = Some g /\ gt_screen (n_chain _ n) g = true.
+  Proof. exact (bundled_ticket_solves chain view cv tx_valid gt_screen work_needed hchain mroot). Qed.
 
   (* the producer recovers: with a pooled ticket for the tip that does not solve it, ONE call of
      bundle_block (clock after the tip) behaves exactly like the call without a ticket on the pool
@@ -217,11 +227,71 @@ Section C07.
   Theorem C07_invalid_gt_recovers : forall dbg (n : node chain) creator m ts g stake order out m',
     (match v_tip (view (n_chain _ n)) with Some p => par_ts p | None => 0 end) < ts ->
     pick_gt m (tip_hash n) = Some g ->
-    gt_ok (n_chain _ n) g = false ->
+    gt_screen (n_chain _ n) g = false ->
     bundle dbg n creator m ts (pick_gt m (tip_hash n)) stake order = Ok (out, m') ->
     pick_gt m' (tip_hash n) = None
     /\ bundle dbg n creator (drop_ticket chain view n m g) ts None stake order = Ok (out, m').
-  Proof. exact (producer_recovers chain view cv tx_valid gt_ok work_needed hchain mroot). Qed.
+  Proof. exact (producer_recovers chain view cv tx_valid gt_screen work_needed hchain mroot). Qed.
+
+  (* ... but the screen is weaker than Block::validate's check: a pooled ticket for the tip that
+     solves it and names the all-zero key is handed to Block::create on every tick, the block is
+     never valid, bundle_block leaves the ticket map alone and add_block_failure deletes under the
+     hash of the failed block: the producer is stuck as before e0300b2 *)
+  Theorem C07_screened_bad_ticket_stays : forall dbg (n : node chain) creator m ts g stake order out m' p,
+    v_tip (view (n_chain _ n)) = Some p ->
+    par_ghost p = false ->
+    par_ts p < ts ->
+    pick_gt m (par_hash p) = Some g ->
+    is_type TGoldenTicket g = true ->
+    gt_screen (n_chain _ n) g = true ->
+    gt_ok (n_chain _ n) g = false ->
+    pool_types_ok (m_txs m) = true ->
+    (forall b0, cv_types_ok (cv (n_chain _ n) (n_ledger _ n) b0) = true) ->
+    bundle dbg n creator m ts (pick_gt m (par_hash p)) stake order = Ok (out, m') ->
+    pick_gt m' (par_hash p) = Some g
+    /\ forall b, out = Bundled b -> node_accepts dbg n b <> Ok true.
+  Proof. exact (screened_bad_ticket_stays chain view cv tx_valid gt_ok gt_screen work_needed supply_ok hchain mroot). Qed.
+
+  Theorem C07_failure_keeps_ticket : forall dbg (n : node chain) m h mine b m1 tip,
+    after_failure chain tx_valid dbg n m h mine b = Ok m1 -> h <> tip ->
+    pool_types_ok (m_txs m) = true ->
+    pick_gt m1 tip = pick_gt m tip /\ pool_types_ok (m_txs m1) = true.
+  Proof. exact (after_failure_inv chain tx_valid). Qed.
+
+  (* ---- the window (fix bb88717): an input can be spent in block [next] iff its block id + genesis
+     period >= next; block [next] rebroadcasts the outputs of block next - genesis_period - 1 ---- *)
+
+  (* a pool that holds only such inputs collides with no rebroadcast: create leaves nothing out *)
+  Theorem C07_young_pool_kept : forall (key_block : N -> N) gp next c0 d,
+    rebroadcasts_due key_block gp next c0 = true ->
+    young_pool key_block gp next d = true ->
+    kept_pool c0 d = d.
+  Proof. exact (young_pool_kept chain gt_ok gt_screen work_needed). Qed.
+
+  (* the intake keeps the pool young while the tip stays (Transaction::validate refuses older inputs) *)
+  Theorem C07_intake_keeps_young : forall (key_block : N -> N) gp next dbg (n : node chain) m t m1,
+    (forall x, tx_valid (n_chain _ n) (n_ledger _ n) x = true -> young_tx key_block gp next x = true) ->
+    young_pool key_block gp next (m_txs m) = true ->
+    intake dbg n m t = Ok m1 ->
+    young_pool key_block gp next (m_txs m1) = true.
+  Proof. exact (intake_keeps_young chain tx_valid). Qed.
+
+  (* so from a young pool the left-out branch of Block::create is dead and the hypothesis of
+     C07_bundle_produced_validates about the left-out work holds.  What is MISSING in the code is
+     the other half of the invariant: when the tip moves, Blockchain::remove_block_transactions
+     re-validates the pool against the utxoset only, not against the window
+     (see the C07_pool_not_young_refuted examples) *)
+  Theorem C07_young_pool_nothing_left_out : forall (key_block : N -> N) gp next dbg (n : node chain) m s m1 order creator ts gt p,
+    v_tip (view (n_chain _ n)) = Some p ->
+    (forall x, tx_valid (n_chain _ n) (n_ledger _ n) x = true -> young_tx key_block gp next x = true) ->
+    young_pool key_block gp next (m_txs m) = true ->
+    intake dbg n m s = Ok m1 ->
+    let drained := drain_in order (m_txs m1) in
+    let c0 := cv (n_chain _ n) (n_ledger _ n) (pre_block (Some p) (par_hash p) creator ts gt drained) in
+    rebroadcasts_due key_block gp next c0 = true ->
+    kept_pool c0 drained = drained
+    /\ nsum (map t_work (m_txs m1)) <= nsum (map t_work (kept_pool c0 drained)).
+  Proof. exact (young_pool_nothing_left_out chain view cv tx_valid gt_ok gt_screen work_needed supply_ok hchain mroot). Qed.
 
   (* ---- staking transactions of other keys are not pooled (fix 9879695) ---- *)
   Theorem C07_foreign_stake_refused : forall dbg (n : node chain) m t,
@@ -232,7 +302,7 @@ Section C07.
   Theorem C07_bundle_ts_declines : forall dbg (n : node chain) creator m ts gt stake order p,
     v_tip (view (n_chain _ n)) = Some p -> ts <= par_ts p ->
     bundle dbg n creator m ts gt stake order = Ok (GateClosed, m).
-  Proof. exact (bundle_ts_declines chain view cv tx_valid gt_ok work_needed hchain mroot). Qed.
+  Proof. exact (bundle_ts_declines chain view cv tx_valid gt_screen work_needed hchain mroot). Qed.
 
   (* ---- Block::create failing (fix 1214e31) ---- *)
 
@@ -260,7 +330,7 @@ Section C07.
       /\ m_work m' = nsum (map t_work (m_txs m'))
       /\ m_umap m' = flat_map t_inputs (m_txs m')
       /\ m_gts m' = m_gts m0.
-  Proof. exact (create_failure_restores chain view cv tx_valid gt_ok work_needed hchain mroot). Qed.
+  Proof. exact (create_failure_restores chain view cv tx_valid gt_screen work_needed hchain mroot). Qed.
 End C07.
 
 (* ---------------------------------------------------------------- witnesses and regressions
@@ -272,89 +342,124 @@ End C07.
    that round. *)
 Definition wn0 : N -> N -> N -> N -> N := fun _ _ _ _ => 0.
 
-(* cap: {"label": "dust-profile", "tip": 5, "gap_ms": 25000, "pool_ops": [{"op": "transfer", "payer": 2, "input": "5:2:1 amount 613335", "fee": 20000, "hops": 1, "pooled": true}, {"op": "transfer", "payer": 3, "input": "5:4:0 amount 606669", "fee": 20000, "hops": 1, "pooled": true}, {"op": "transfer", "payer": 4, "input": "5:1:0 amount 600003", "fee": 20000, "hops": 1, "pooled": true}, {"op": "transfer", "payer": 5, "input": "5:3:0 amount 593337", "fee": 20000, "hops": 1, "pooled": true}], "pool_size": 4, "cached_work": 80000, "work_needed": 0, "gt_for_tip": false, "outcome": "Rejected", "detail": "block 6 txs(types) [0, 0, 0, 0, 3] producer Invalid second node Invalid; atr multiplier 3; diffs [\"rebroadcast_hash: hash over the block's rebroadcast transactions differs from the recomputed one\"]; create-vs-validate cv []"} *)
+(* cap: {"label": "dust-profile", "tip": 5, "gap_ms": 25000, "pool_ops": [{"op": "transfer", "payer": 2, "input": "5:1:1 amount 613335", "fee": 20000, "hops": 1, "pooled": true}, {"op": "transfer", "payer": 3, "input": "5:2:0 amount 606669", "fee": 20000, "hops": 1, "pooled": true}, {"op": "transfer", "payer": 4, "input": "5:3:0 amount 600003", "fee": 20000, "hops": 1, "pooled": true}, {"op": "transfer", "payer": 5, "input": "5:4:0 amount 593337", "fee": 20000, "hops": 1, "pooled": true}], "pool_size": 4, "cached_work": 80000, "work_needed": 0, "gt_for_tip": false, "outcome": "Accepted", "detail": "block 6 txs(types) [0, 0, 0, 0, 3] producer OnChain second node OnChain; atr multiplier 3; diffs []; create-vs-validate cv []"} *)
 Definition wit_cap : rcase :=
-  mkRC (mkView (Some (mkPar 65 5 1100000 40000 2 96428 12649111 false)) false 0 10000 3263 true true) (mkM [(mkTx 69 70 TNormal 20000 [71] 0 0 false); (mkTx 72 73 TNormal 20000 [74] 0 0 false); (mkTx 75 76 TNormal 20000 [77] 0 0 false); (mkTx 78 79 TNormal 20000 [80] 0 0 false)] [71; 74; 77; 80] 80000 true true []) 18 1125000 (Some (mkTx 14 15 TBlockStake 0 [] 0 0 true)) [76; 79; 70; 73] 81 (mkCv (mkE 80000 80000 0 95600 73115 69464 3651 0 0 0 0 0 21728 12840 0 0 0 44 56 112540 8000000 0) [(mkTx 82 9 TATR 0 [83] 1 0 false)] 1 84 None) (mkCv (mkE 80000 80000 0 95600 73115 69464 3651 0 0 0 0 0 21728 12840 0 0 0 44 56 112540 8000000 0) [(mkTx 82 9 TATR 0 [83] 1 0 false)] 1 84 None) [(69, true); (72, true); (75, true); (78, true); (14, false); (82, false)] [] [([82], 85); ([], 0)] [([75; 78; 69; 72; 82], 86)] true [[4]; [75; 78; 69; 72; 82]; [6; 1125000; 65; 96428; 40000; 2]; [80000; 80000; 0; 95600; 73115; 69464; 3651; 0; 0; 0; 0; 0; 21728; 12840; 0; 0; 0; 44; 56; 112540; 8000000; 0]; [80000; 1; 85; 86]; [0; 0]; [70; 73; 76; 79]; [80000; 1]; []].
+  mkRC (mkView (Some (mkPar 65 5 1100000 40000 2 96428 12649111 false)) false 0 10000 840 true true) (mkM [(mkTx 69 70 TNormal 20000 [71] 0 0 false); (mkTx 72 73 TNormal 20000 [74] 0 0 false); (mkTx 75 76 TNormal 20000 [77] 0 0 false); (mkTx 78 79 TNormal 20000 [80] 0 0 false)] [71; 74; 77; 80] 80000 true true []) 18 1125000 (Some (mkTx 14 15 TBlockStake 0 [] 0 0 true)) [79; 73; 76; 70] 81 (mkCv (mkE 80000 80000 0 80000 73115 69464 3651 0 0 0 0 0 21728 12840 0 0 0 44 56 112540 8000000 0) [(mkTx 82 9 TATR 0 [83] 1 0 false)] 1 84 None) (mkCv (mkE 80000 80000 0 80000 73115 69464 3651 0 0 0 0 0 21728 12840 0 0 0 44 56 112540 8000000 0) [(mkTx 82 9 TATR 0 [83] 1 0 false)] 1 84 None) [(69, true); (72, true); (75, true); (78, true); (14, false); (82, true)] [] [] [(71, 5); (74, 5); (77, 5); (80, 5); (83, 2)] 3 [([82], 84); ([], 0)] [([78; 72; 75; 69; 82], 85)] true [[4]; [78; 72; 75; 69; 82]; [6; 1125000; 65; 96428; 40000; 2]; [80000; 80000; 0; 80000; 73115; 69464; 3651; 0; 0; 0; 0; 0; 21728; 12840; 0; 0; 0; 44; 56; 112540; 8000000; 0]; [80000; 1; 84; 85]; [1; 1]; []; [0; 0]; []].
 
 (* gt: {"label": "invalid-golden-ticket", "tip": 4, "gap_ms": 25000, "pool_ops": [{"op": "transfer", "payer": 2, "input": "1:9:0 amount 401002", "fee": 5000, "hops": 1, "pooled": true}, {"op": "transfer", "payer": 3, "input": "3:3:0 amount 401703", "fee": 300, "hops": 2, "pooled": true}, {"op": "transfer", "payer": 4, "input": "1:29:0 amount 405004", "fee": 0, "hops": 0, "pooled": true}, {"op": "golden-ticket", "kind": "Invalid", "tip_difficulty": 2}], "pool_size": 3, "cached_work": 5150, "work_needed": 0, "gt_for_tip": true, "outcome": "Accepted", "detail": "block 5 txs(types) [0, 0, 0] producer OnChain second node OnChain; atr multiplier 1; diffs []; create-vs-validate cv []"} *)
 Definition wit_gt : rcase :=
-  mkRC (mkView (Some (mkPar 46 4 1075000 0 2120 5300 20000000 false)) false 0 10000 4414 true true) (mkM [(mkTx 50 51 TNormal 0 [52] 0 0 false); (mkTx 53 54 TNormal 150 [55] 0 0 false); (mkTx 56 57 TNormal 5000 [58] 0 0 false)] [52; 55; 58] 5150 true true [(46, mkTx 59 60 TGoldenTicket 0 [] 0 46 true)]) 19 1100000 (Some (mkTx 13 14 TBlockStake 0 [] 0 0 true)) [57; 54; 51] 61 (mkCv (mkE 5300 5300 0 5300 3128 3128 0 0 0 0 0 0 628 628 0 0 0 1 5 0 12649111 2) [] 0 0 None) (mkCv (mkE 5300 5300 0 5300 3128 3128 0 0 0 0 0 0 628 628 0 0 0 1 5 0 12649111 2) [] 0 0 None) [(50, true); (53, true); (56, true); (13, false)] [(59, false)] [([], 0)] [([56; 53; 50], 62)] true [[4]; [56; 53; 50]; [5; 1100000; 46; 5300; 0; 2120]; [5300; 5300; 0; 5300; 3128; 3128; 0; 0; 0; 0; 0; 0; 628; 628; 0; 0; 0; 1; 5; 0; 12649111; 2]; [5150; 0; 0; 62]; [1; 1]; []; [0; 0]; []].
+  mkRC (mkView (Some (mkPar 46 4 1075000 0 2120 5300 20000000 false)) false 0 10000 3900 true true) (mkM [(mkTx 50 51 TNormal 0 [52] 0 0 false); (mkTx 53 54 TNormal 150 [55] 0 0 false); (mkTx 56 57 TNormal 5000 [58] 0 0 false)] [52; 55; 58] 5150 true true [(46, mkTx 59 60 TGoldenTicket 0 [] 0 46 true)]) 19 1100000 (Some (mkTx 13 14 TBlockStake 0 [] 0 0 true)) [51; 57; 54] 61 (mkCv (mkE 5300 5300 0 5300 3128 3128 0 0 0 0 0 0 628 628 0 0 0 1 5 0 12649111 2) [] 0 0 None) (mkCv (mkE 5300 5300 0 5300 3128 3128 0 0 0 0 0 0 628 628 0 0 0 1 5 0 12649111 2) [] 0 0 None) [(50, true); (53, true); (56, true); (13, false)] [(59, false)] [(59, false)] [(52, 1); (55, 3); (58, 1)] 5 [([], 0)] [([50; 56; 53], 62)] true [[4]; [50; 56; 53]; [5; 1100000; 46; 5300; 0; 2120]; [5300; 5300; 0; 5300; 3128; 3128; 0; 0; 0; 0; 0; 0; 628; 628; 0; 0; 0; 1; 5; 0; 12649111; 2]; [5150; 0; 0; 62]; [1; 1]; []; [0; 0]; []].
 
-(* issuance: {"label": "issuance", "tip": 3, "gap_ms": 25000, "pool_ops": [{"op": "transfer", "payer": 2, "input": "1:14:0 amount 406002", "fee": 5000, "hops": 1, "pooled": true}, {"op": "transfer", "payer": 3, "input": "1:20:0 amount 404003", "fee": 300, "hops": 2, "pooled": true}, {"op": "transfer", "payer": 4, "input": "2:1:0 amount 404004", "fee": 0, "hops": 0, "pooled": true}, {"op": "issuance-typed", "pooled": true}], "pool_size": 4, "cached_work": 5150, "work_needed": 0, "gt_for_tip": false, "outcome": "Rejected", "detail": "block 4 txs(types) [0, 6, 0, 0] producer Invalid second node Invalid; atr multiplier 1; diffs []; create-vs-validate cv []"} *)
+(* issuance: {"label": "issuance", "tip": 3, "gap_ms": 25000, "pool_ops": [{"op": "transfer", "payer": 2, "input": "1:14:0 amount 406002", "fee": 5000, "hops": 1, "pooled": true}, {"op": "transfer", "payer": 3, "input": "1:20:0 amount 404003", "fee": 300, "hops": 2, "pooled": true}, {"op": "transfer", "payer": 4, "input": "2:0:0 amount 404004", "fee": 0, "hops": 0, "pooled": true}, {"op": "issuance-typed", "pooled": true}], "pool_size": 4, "cached_work": 5150, "work_needed": 0, "gt_for_tip": false, "outcome": "Rejected", "detail": "block 4 txs(types) [0, 0, 6, 0] producer Invalid second node Invalid; atr multiplier 1; diffs []; create-vs-validate cv []"} *)
 Definition wit_issuance : rcase :=
-  mkRC (mkView (Some (mkPar 27 3 1050000 0 2120 5300 31622777 false)) false 0 10000 3348 true true) (mkM [(mkTx 31 32 TNormal 150 [33] 0 0 false); (mkTx 34 35 TNormal 0 [36] 0 0 false); (mkTx 37 38 TNormal 5000 [39] 0 0 false); (mkTx 40 41 TIssuance 0 [] 0 0 true)] [33; 36; 39] 5150 true true []) 15 1075000 (Some (mkTx 11 12 TBlockStake 0 [] 0 0 true)) [35; 41; 32; 38] 42 (mkCv (mkE 5300 5300 0 5300 2586 2586 0 0 0 0 0 0 255 255 0 0 0 1 5 0 20000000 0) [] 0 0 None) (mkCv (mkE 5300 5300 0 5300 2586 2586 0 0 0 0 0 0 255 255 0 0 0 1 5 0 20000000 0) [] 0 0 None) [(31, true); (34, true); (37, true); (40, true); (11, false)] [] [([], 0)] [([34; 40; 31; 37], 43)] true [[4]; [34; 40; 31; 37]; [4; 1075000; 27; 5300; 0; 2120]; [5300; 5300; 0; 5300; 2586; 2586; 0; 0; 0; 0; 0; 0; 255; 255; 0; 0; 0; 1; 5; 0; 20000000; 0]; [5150; 0; 0; 43]; [0; 0]; [32; 35; 38]; [5150; 1]; []].
+  mkRC (mkView (Some (mkPar 27 3 1050000 0 2120 5300 31622777 false)) false 0 10000 4936 true true) (mkM [(mkTx 31 32 TNormal 150 [33] 0 0 false); (mkTx 34 35 TNormal 0 [36] 0 0 false); (mkTx 37 38 TNormal 5000 [39] 0 0 false); (mkTx 40 41 TIssuance 0 [] 0 0 true)] [33; 36; 39] 5150 true true []) 15 1075000 (Some (mkTx 11 12 TBlockStake 0 [] 0 0 true)) [35; 38; 41; 32] 42 (mkCv (mkE 5300 5300 0 5300 2586 2586 0 0 0 0 0 0 255 255 0 0 0 1 5 0 20000000 0) [] 0 0 None) (mkCv (mkE 5300 5300 0 5300 2586 2586 0 0 0 0 0 0 255 255 0 0 0 1 5 0 20000000 0) [] 0 0 None) [(31, true); (34, true); (37, true); (40, true); (11, false)] [] [] [(33, 1); (36, 2); (39, 1)] 5 [([], 0)] [([34; 37; 40; 31], 43)] true [[4]; [34; 37; 40; 31]; [4; 1075000; 27; 5300; 0; 2120]; [5300; 5300; 0; 5300; 2586; 2586; 0; 0; 0; 0; 0; 0; 255; 255; 0; 0; 0; 1; 5; 0; 20000000; 0]; [5150; 0; 0; 43]; [0; 0]; [32; 35; 38]; [5150; 1]; []].
 
-(* stake: {"label": "foreign-stake", "tip": 3, "gap_ms": 25000, "pool_ops": [{"op": "transfer", "payer": 2, "input": "1:14:0 amount 406002", "fee": 5000, "hops": 1, "pooled": true}, {"op": "transfer", "payer": 3, "input": "1:20:0 amount 404003", "fee": 300, "hops": 2, "pooled": true}, {"op": "transfer", "payer": 4, "input": "2:1:0 amount 404004", "fee": 0, "hops": 0, "pooled": true}, {"op": "blockstake-typed-from-peer", "payer": 5, "pooled": false}], "pool_size": 3, "cached_work": 5150, "work_needed": 0, "gt_for_tip": false, "outcome": "Accepted", "detail": "block 4 txs(types) [0, 7, 0, 0] producer OnChain second node OnChain; atr multiplier 1; diffs []; create-vs-validate cv []"} *)
+(* stake: {"label": "foreign-stake", "tip": 3, "gap_ms": 25000, "pool_ops": [{"op": "transfer", "payer": 2, "input": "1:14:0 amount 406002", "fee": 5000, "hops": 1, "pooled": true}, {"op": "transfer", "payer": 3, "input": "1:20:0 amount 404003", "fee": 300, "hops": 2, "pooled": true}, {"op": "transfer", "payer": 4, "input": "2:1:0 amount 404004", "fee": 0, "hops": 0, "pooled": true}, {"op": "blockstake-typed-from-peer", "payer": 5, "pooled": false}], "pool_size": 3, "cached_work": 5150, "work_needed": 0, "gt_for_tip": false, "outcome": "Accepted", "detail": "block 4 txs(types) [0, 0, 0, 7] producer OnChain second node OnChain; atr multiplier 1; diffs []; create-vs-validate cv []"} *)
 Definition wit_stake : rcase :=
-  mkRC (mkView (Some (mkPar 31 3 1050000 0 2120 5300 31622777 false)) false 50000 10000 3803 true true) (mkM [(mkTx 35 36 TNormal 150 [37] 0 0 false); (mkTx 38 39 TNormal 0 [40] 0 0 false); (mkTx 41 42 TNormal 5000 [43] 0 0 false)] [37; 40; 43] 5150 true true []) 16 1075000 (Some (mkTx 44 45 TBlockStake 0 [46] 0 0 true)) [36; 45; 42; 39] 47 (mkCv (mkE 5300 5300 0 5300 2586 2586 0 0 0 0 0 0 255 255 0 0 0 1 5 0 20000000 0) [] 0 0 None) (mkCv (mkE 5300 5300 0 5300 2586 2586 0 0 0 0 0 0 255 255 0 0 0 1 5 0 20000000 0) [] 0 0 None) [(35, true); (38, true); (41, true); (44, true)] [] [([], 0)] [([35; 44; 41; 38], 48)] true [[4]; [35; 44; 41; 38]; [4; 1075000; 31; 5300; 0; 2120]; [5300; 5300; 0; 5300; 2586; 2586; 0; 0; 0; 0; 0; 0; 255; 255; 0; 0; 0; 1; 5; 0; 20000000; 0]; [5150; 0; 0; 48]; [1; 1]; []; [0; 0]; []].
+  mkRC (mkView (Some (mkPar 31 3 1050000 0 2120 5300 31622777 false)) false 50000 10000 3108 true true) (mkM [(mkTx 35 36 TNormal 150 [37] 0 0 false); (mkTx 38 39 TNormal 0 [40] 0 0 false); (mkTx 41 42 TNormal 5000 [43] 0 0 false)] [37; 40; 43] 5150 true true []) 16 1075000 (Some (mkTx 44 45 TBlockStake 0 [46] 0 0 true)) [42; 36; 39; 45] 47 (mkCv (mkE 5300 5300 0 5300 2586 2586 0 0 0 0 0 0 255 255 0 0 0 0 4 0 20000000 0) [] 0 0 None) (mkCv (mkE 5300 5300 0 5300 2586 2586 0 0 0 0 0 0 255 255 0 0 0 0 4 0 20000000 0) [] 0 0 None) [(35, true); (38, true); (41, true); (44, true)] [] [] [(37, 1); (40, 2); (43, 1); (46, 1)] 5 [([], 0)] [([41; 35; 38; 44], 48)] true [[4]; [41; 35; 38; 44]; [4; 1075000; 31; 5300; 0; 2120]; [5300; 5300; 0; 5300; 2586; 2586; 0; 0; 0; 0; 0; 0; 255; 255; 0; 0; 0; 0; 4; 0; 20000000; 0]; [5150; 0; 0; 48]; [1; 1]; []; [0; 0]; []].
 
-(* clash: {"label": "rebroadcast-clash", "tip": 4, "gap_ms": 25000, "pool_ops": [{"op": "transfer", "payer": 2, "input": "3:3:0 amount 398002", "fee": 5000, "hops": 1, "pooled": true}, {"op": "transfer", "payer": 3, "input": "3:1:0 amount 401703", "fee": 300, "hops": 2, "pooled": true}, {"op": "transfer", "payer": 4, "input": "4:2:0 amount 404004", "fee": 0, "hops": 0, "pooled": true}, {"op": "spend-output-due-for-rebroadcast", "payer": 5, "input": "1:32:0 amount 400005", "pooled": true}, {"op": "golden-ticket", "kind": "Valid", "tip_difficulty": 0}], "pool_size": 4, "cached_work": 5650, "work_needed": 0, "gt_for_tip": true, "outcome": "Accepted", "detail": "block 5 txs(types) [2, 0, 0, 0, 3, 3, 3, 3, 3, 3, 3, 3, 3, 3, 3, 3, 3, 3, 3, 3, 3, 3, 3, 3, 3, 3, 3, 3, 3, 3, 3, 3, 3, 3, 3, 3, 1] producer OnChain second node OnChain; atr multiplier 1; diffs []; create-vs-validate cv []"} *)
-Definition wit_clash : rcase :=
-  mkRC (mkView (Some (mkPar 40 4 1075000 0 2 5300 20000000 false)) false 0 10000 1452 true true) (mkM [(mkTx 42 43 TNormal 500 [44] 0 0 false); (mkTx 45 46 TNormal 5000 [47] 0 0 false); (mkTx 48 49 TNormal 150 [50] 0 0 false); (mkTx 51 52 TNormal 0 [53] 0 0 false)] [44; 47; 50; 53] 5650 true true [(40, mkTx 54 55 TGoldenTicket 0 [] 0 40 true)]) 15 1100000 (Some (mkTx 11 12 TBlockStake 0 [] 0 0 true)) [46; 49; 52] 56 (mkCv (mkE 15028 5300 9728 15028 7495 4252 3242 5300 2650 2650 0 0 2159 1276 883 0 0 2 3 8560372 12649111 0) [(mkTx 57 58 TATR 0 [59] 1 0 true); (mkTx 60 61 TATR 0 [62] 1 0 true); (mkTx 63 64 TATR 0 [65] 1 0 true); (mkTx 66 67 TATR 0 [68] 1 0 true); (mkTx 69 70 TATR 0 [71] 1 0 true); (mkTx 72 73 TATR 0 [74] 1 0 true); (mkTx 75 76 TATR 0 [77] 1 0 true); (mkTx 78 79 TATR 0 [80] 1 0 true); (mkTx 81 82 TATR 0 [83] 1 0 false); (mkTx 84 85 TATR 0 [86] 1 0 false); (mkTx 87 88 TATR 0 [89] 1 0 false); (mkTx 90 91 TATR 0 [92] 1 0 false); (mkTx 93 94 TATR 0 [95] 1 0 false); (mkTx 96 97 TATR 0 [98] 1 0 false); (mkTx 99 100 TATR 0 [101] 1 0 false); (mkTx 102 103 TATR 0 [104] 1 0 false); (mkTx 105 106 TATR 0 [107] 1 0 false); (mkTx 108 109 TATR 0 [110] 1 0 false); (mkTx 111 112 TATR 0 [113] 1 0 false); (mkTx 114 115 TATR 0 [116] 1 0 false); (mkTx 117 118 TATR 0 [119] 1 0 false); (mkTx 120 121 TATR 0 [122] 1 0 false); (mkTx 123 124 TATR 0 [125] 1 0 false); (mkTx 126 127 TATR 0 [128] 1 0 false); (mkTx 129 130 TATR 0 [44] 1 0 false); (mkTx 131 132 TATR 0 [133] 1 0 false); (mkTx 134 135 TATR 0 [136] 1 0 false); (mkTx 137 138 TATR 0 [139] 1 0 false); (mkTx 140 141 TATR 0 [142] 1 0 false); (mkTx 143 144 TATR 0 [145] 1 0 false); (mkTx 146 147 TATR 0 [148] 1 0 false); (mkTx 149 150 TATR 0 [151] 1 0 false)] 32 154 (Some (mkTx 152 0 TFee 0 [] 0 0 true))) (mkCv (mkE 15028 5300 9728 15028 7495 4252 3242 5300 2650 2650 0 0 2159 1276 883 0 0 2 3 8560372 12649111 0) [(mkTx 57 58 TATR 0 [59] 1 0 true); (mkTx 60 61 TATR 0 [62] 1 0 true); (mkTx 63 64 TATR 0 [65] 1 0 true); (mkTx 66 67 TATR 0 [68] 1 0 true); (mkTx 69 70 TATR 0 [71] 1 0 true); (mkTx 72 73 TATR 0 [74] 1 0 true); (mkTx 75 76 TATR 0 [77] 1 0 true); (mkTx 78 79 TATR 0 [80] 1 0 true); (mkTx 81 82 TATR 0 [83] 1 0 false); (mkTx 84 85 TATR 0 [86] 1 0 false); (mkTx 87 88 TATR 0 [89] 1 0 false); (mkTx 90 91 TATR 0 [92] 1 0 false); (mkTx 93 94 TATR 0 [95] 1 0 false); (mkTx 96 97 TATR 0 [98] 1 0 false); (mkTx 99 100 TATR 0 [101] 1 0 false); (mkTx 102 103 TATR 0 [104] 1 0 false); (mkTx 105 106 TATR 0 [107] 1 0 false); (mkTx 108 109 TATR 0 [110] 1 0 false); (mkTx 111 112 TATR 0 [113] 1 0 false); (mkTx 114 115 TATR 0 [116] 1 0 false); (mkTx 117 118 TATR 0 [119] 1 0 false); (mkTx 120 121 TATR 0 [122] 1 0 false); (mkTx 123 124 TATR 0 [125] 1 0 false); (mkTx 126 127 TATR 0 [128] 1 0 false); (mkTx 129 130 TATR 0 [44] 1 0 false); (mkTx 131 132 TATR 0 [133] 1 0 false); (mkTx 134 135 TATR 0 [136] 1 0 false); (mkTx 137 138 TATR 0 [139] 1 0 false); (mkTx 140 141 TATR 0 [142] 1 0 false); (mkTx 143 144 TATR 0 [145] 1 0 false); (mkTx 146 147 TATR 0 [148] 1 0 false); (mkTx 149 150 TATR 0 [151] 1 0 false)] 32 154 (Some (mkTx 152 0 TFee 0 [] 0 0 true))) [(42, true); (45, true); (48, true); (51, true); (11, false); (54, true); (57, true); (60, true); (63, true); (66, true); (69, true); (72, true); (75, true); (78, true); (81, true); (84, true); (87, true); (90, true); (93, true); (96, true); (99, true); (102, true); (105, true); (108, true); (111, true); (114, true); (117, true); (120, true); (123, true); (126, true); (129, true); (131, true); (134, true); (137, true); (140, true); (143, true); (146, true); (149, true); (152, true)] [(54, true)] [([57; 60; 63; 66; 69; 72; 75; 78; 81; 84; 87; 90; 93; 96; 99; 102; 105; 108; 111; 114; 117; 120; 123; 126; 129; 131; 134; 137; 140; 143; 146; 149], 154); ([], 0)] [([54; 45; 48; 51; 57; 60; 63; 66; 69; 72; 75; 78; 81; 84; 87; 90; 93; 96; 99; 102; 105; 108; 111; 114; 117; 120; 123; 126; 129; 131; 134; 137; 140; 143; 146; 149; 152], 155)] true [[4]; [54; 45; 48; 51; 57; 60; 63; 66; 69; 72; 75; 78; 81; 84; 87; 90; 93; 96; 99; 102; 105; 108; 111; 114; 117; 120; 123; 126; 129; 131; 134; 137; 140; 143; 146; 149; 152]; [5; 1100000; 40; 0; 2650; 2]; [15028; 5300; 9728; 15028; 7495; 4252; 3242; 5300; 2650; 2650; 0; 0; 2159; 1276; 883; 0; 0; 2; 3; 8560372; 12649111; 0]; [5150; 32; 154; 155]; [1; 1]; []; [0; 0]; []].
-
-(* ts: {"label": "timestamp-order", "tip": 3, "gap_ms": 0, "pool_ops": [{"op": "transfer", "payer": 2, "input": "1:14:0 amount 406002", "fee": 5000, "hops": 1, "pooled": true}, {"op": "transfer", "payer": 3, "input": "1:20:0 amount 404003", "fee": 300, "hops": 2, "pooled": true}, {"op": "transfer", "payer": 4, "input": "2:0:0 amount 404004", "fee": 0, "hops": 0, "pooled": true}], "pool_size": 3, "cached_work": 5150, "work_needed": 10000000000000000000, "gt_for_tip": false, "outcome": "GateClosed", "detail": ""} *)
+(* ts: {"label": "timestamp-order", "tip": 3, "gap_ms": 0, "pool_ops": [{"op": "transfer", "payer": 2, "input": "1:14:0 amount 406002", "fee": 5000, "hops": 1, "pooled": true}, {"op": "transfer", "payer": 3, "input": "1:20:0 amount 404003", "fee": 300, "hops": 2, "pooled": true}, {"op": "transfer", "payer": 4, "input": "2:2:0 amount 404004", "fee": 0, "hops": 0, "pooled": true}], "pool_size": 3, "cached_work": 5150, "work_needed": 10000000000000000000, "gt_for_tip": false, "outcome": "GateClosed", "detail": ""} *)
 Definition wit_ts : rcase :=
-  mkRC (mkView (Some (mkPar 27 3 1050000 0 2120 5300 31622777 false)) false 0 10000 2203 true true) (mkM [(mkTx 31 32 TNormal 150 [33] 0 0 false); (mkTx 34 35 TNormal 0 [36] 0 0 false); (mkTx 37 38 TNormal 5000 [39] 0 0 false)] [33; 36; 39] 5150 true true []) 15 1050000 (Some (mkTx 11 12 TBlockStake 0 [] 0 0 true)) [32; 35; 38; 12] 0 (mkCv econ0 [] 0 0 None) (mkCv econ0 [] 0 0 None) [(31, true); (34, true); (37, true); (11, false)] [] [([], 0)] [] true [[1]; [32; 35; 38]; [5150; 1]; []].
+  mkRC (mkView (Some (mkPar 27 3 1050000 0 2120 5300 31622777 false)) false 0 10000 4892 true true) (mkM [(mkTx 31 32 TNormal 150 [33] 0 0 false); (mkTx 34 35 TNormal 0 [36] 0 0 false); (mkTx 37 38 TNormal 5000 [39] 0 0 false)] [33; 36; 39] 5150 true true []) 15 1050000 (Some (mkTx 11 12 TBlockStake 0 [] 0 0 true)) [32; 35; 38; 12] 0 (mkCv econ0 [] 0 0 None) (mkCv econ0 [] 0 0 None) [(31, true); (34, true); (37, true); (11, false)] [] [] [(33, 1); (36, 2); (39, 1)] 5 [([], 0)] [] true [[1]; [32; 35; 38]; [5150; 1]; []].
 
-(* dust: {"label": "dust-spend", "tip": 4, "gap_ms": 25000, "pool_ops": [{"op": "transfer", "payer": 2, "input": "4:3:0 amount 940002", "fee": 20000, "hops": 1, "pooled": true}, {"op": "transfer", "payer": 3, "input": "4:0:1 amount 626669", "fee": 20000, "hops": 1, "pooled": true}, {"op": "transfer", "payer": 4, "input": "4:1:0 amount 620003", "fee": 20000, "hops": 1, "pooled": true}, {"op": "transfer", "payer": 5, "input": "4:2:0 amount 613337", "fee": 20000, "hops": 1, "pooled": true}, {"op": "spend-output-due-for-rebroadcast", "payer": 2, "input": "1:1:0 amount 2002", "pooled": true}, {"op": "golden-ticket", "kind": "Valid", "tip_difficulty": 0}], "pool_size": 5, "cached_work": 80500, "work_needed": 0, "gt_for_tip": true, "outcome": "Rejected", "detail": "block 5 txs(types) [2, 0, 0, 0, 0, 0, 1] producer Panicked second node Panicked; atr multiplier 1; diffs []; create-vs-validate cv []"} *)
-Definition wit_dust : rcase :=
-  mkRC (mkView (Some (mkPar 49 4 1075000 0 2 80000 20000000 false)) false 0 10000 1658 true true) (mkM [(mkTx 51 52 TNormal 20000 [53] 0 0 false); (mkTx 54 55 TNormal 20000 [56] 0 0 false); (mkTx 57 58 TNormal 20000 [59] 0 0 false); (mkTx 60 61 TNormal 500 [62] 0 0 false); (mkTx 63 64 TNormal 20000 [65] 0 0 false)] [53; 56; 59; 62; 65] 80500 true true [(49, mkTx 66 67 TGoldenTicket 0 [] 0 49 true)]) 18 1100000 (Some (mkTx 14 15 TBlockStake 0 [] 0 0 true)) [52; 58; 61; 64; 55] 68 (mkCv (mkE 96928 80500 16428 80500 69840 64364 5476 80000 40000 40000 0 0 32592 19259 13333 0 0 36 37 5476 12649111 0) [] 0 0 (Some (mkTx 69 0 TFee 0 [] 0 0 true))) (mkCv (mkE 96928 80500 16428 80500 69840 64364 5476 80000 40000 40000 0 0 32592 19259 13333 0 0 36 37 5476 12649111 0) [] 0 0 (Some (mkTx 69 0 TFee 0 [] 0 0 true))) [(51, true); (54, true); (57, true); (60, true); (63, true); (14, false); (66, true); (69, true)] [(66, true)] [([], 0)] [([66; 51; 57; 60; 63; 54; 69], 71)] false [[4]; [66; 51; 57; 60; 63; 54; 69]; [5; 1100000; 49; 0; 40000; 2]; [96928; 80500; 16428; 80500; 69840; 64364; 5476; 80000; 40000; 40000; 0; 0; 32592; 19259; 13333; 0; 0; 36; 37; 5476; 12649111; 0]; [80500; 0; 0; 71]; [905; 905]; []; [0; 0]; [49]].
-
-(* leftout: {"label": "left-out-transaction-carried-the-work", "tip": 8, "gap_ms": 15000, "pool_ops": [{"op": "spend-output-due-for-rebroadcast", "payer": 5, "input": "5:28:0 amount 399701", "pooled": true}, {"op": "transfer", "payer": 4, "input": "8:4:0 amount 402700", "fee": 0, "hops": 0, "pooled": true}], "pool_size": 2, "cached_work": 60000, "work_needed": 213, "gt_for_tip": false, "outcome": "Rejected", "detail": "block 9 txs(types) [0, 3, 3, 3, 3, 3, 3, 3, 3, 3, 3, 3, 3, 3, 3, 3, 3, 3, 3, 3, 3, 3, 3, 3, 3, 3, 3, 3, 3, 3] producer Invalid second node Invalid; atr multiplier 1; diffs [\"total_work 0 below work needed 213 (cached pool work was 60000)\"]; create-vs-validate cv []"} *)
+(* leftout: {"label": "pooled-input-ages-and-carried-the-work", "tip": 8, "gap_ms": 15000, "pool_ops": [{"op": "spend-oldest-spendable-output", "payer": 2, "input": "5:2:0 amount 393002", "fee": 60000, "pooled": true}, {"op": "transfer", "payer": 4, "input": "7:4:0 amount 406700", "fee": 0, "hops": 0, "pooled": true}, {"op": "peer-block", "own_transactions_only": true, "txs": 1, "producer": "OnChain", "second": "OnChain", "pool_after": 2, "cached_work_after": 60000}], "pool_size": 2, "cached_work": 60000, "work_needed": 213, "gt_for_tip": false, "outcome": "Rejected", "detail": "block 9 txs(types) [0, 3, 3, 3, 3, 3, 3, 3, 3, 3, 3, 3, 3, 3, 3, 3, 3, 3, 3, 3, 3, 3, 3, 3, 3, 3, 3, 3, 3, 3, 3, 3, 3, 3] producer Invalid second node Invalid; atr multiplier 1; diffs [\"total_work 0 below work needed 213 (cached pool work was 60000)\"]; create-vs-validate cv []"} *)
 Definition wit_leftout : rcase :=
-  mkRC (mkView (Some (mkPar 216 8 1175000 2650 7516 6924 3200000 false)) false 0 10000 3055 true true) (mkM [(mkTx 225 226 TNormal 60000 [227] 0 0 false); (mkTx 228 229 TNormal 0 [230] 0 0 false)] [227; 230] 60000 true true []) 15 1190000 (Some (mkTx 11 12 TBlockStake 0 [] 0 0 true)) [229] 231 (mkCv (mkE 20148 0 20148 20148 11392 3326 8065 0 0 0 0 0 2412 2237 0 0 0 2 0 9758781 2612789 3) [(mkTx 232 49 TATR 0 [233] 1 0 false); (mkTx 234 43 TATR 0 [235] 1 0 false); (mkTx 236 55 TATR 0 [237] 1 0 true); (mkTx 238 58 TATR 0 [239] 1 0 true); (mkTx 240 61 TATR 0 [241] 1 0 true); (mkTx 242 64 TATR 0 [243] 1 0 true); (mkTx 244 67 TATR 0 [245] 1 0 true); (mkTx 246 70 TATR 0 [247] 1 0 true); (mkTx 248 73 TATR 0 [249] 1 0 true); (mkTx 250 76 TATR 0 [251] 1 0 true); (mkTx 252 82 TATR 0 [253] 1 0 false); (mkTx 254 91 TATR 0 [255] 1 0 false); (mkTx 256 94 TATR 0 [257] 1 0 false); (mkTx 258 97 TATR 0 [259] 1 0 false); (mkTx 260 103 TATR 0 [261] 1 0 false); (mkTx 262 109 TATR 0 [263] 1 0 false); (mkTx 264 112 TATR 0 [265] 1 0 false); (mkTx 266 121 TATR 0 [267] 1 0 false); (mkTx 268 127 TATR 0 [227] 1 0 false); (mkTx 269 130 TATR 0 [270] 1 0 false); (mkTx 271 133 TATR 0 [272] 1 0 false); (mkTx 273 136 TATR 0 [274] 1 0 false); (mkTx 275 139 TATR 0 [276] 1 0 false); (mkTx 277 142 TATR 0 [278] 1 0 false); (mkTx 279 145 TATR 0 [280] 1 0 false); (mkTx 281 148 TATR 0 [282] 1 0 false); (mkTx 283 151 TATR 0 [284] 1 0 true); (mkTx 285 151 TATR 0 [286] 1 0 true); (mkTx 287 151 TATR 0 [288] 1 0 true)] 29 289 None) (mkCv (mkE 20148 0 20148 20148 11392 3326 8065 0 0 0 0 0 2412 2237 0 0 0 2 0 9758781 2612789 3) [(mkTx 232 49 TATR 0 [233] 1 0 false); (mkTx 234 43 TATR 0 [235] 1 0 false); (mkTx 236 55 TATR 0 [237] 1 0 true); (mkTx 238 58 TATR 0 [239] 1 0 true); (mkTx 240 61 TATR 0 [241] 1 0 true); (mkTx 242 64 TATR 0 [243] 1 0 true); (mkTx 244 67 TATR 0 [245] 1 0 true); (mkTx 246 70 TATR 0 [247] 1 0 true); (mkTx 248 73 TATR 0 [249] 1 0 true); (mkTx 250 76 TATR 0 [251] 1 0 true); (mkTx 252 82 TATR 0 [253] 1 0 false); (mkTx 254 91 TATR 0 [255] 1 0 false); (mkTx 256 94 TATR 0 [257] 1 0 false); (mkTx 258 97 TATR 0 [259] 1 0 false); (mkTx 260 103 TATR 0 [261] 1 0 false); (mkTx 262 109 TATR 0 [263] 1 0 false); (mkTx 264 112 TATR 0 [265] 1 0 false); (mkTx 266 121 TATR 0 [267] 1 0 false); (mkTx 268 127 TATR 0 [227] 1 0 false); (mkTx 269 130 TATR 0 [270] 1 0 false); (mkTx 271 133 TATR 0 [272] 1 0 false); (mkTx 273 136 TATR 0 [274] 1 0 false); (mkTx 275 139 TATR 0 [276] 1 0 false); (mkTx 277 142 TATR 0 [278] 1 0 false); (mkTx 279 145 TATR 0 [280] 1 0 false); (mkTx 281 148 TATR 0 [282] 1 0 false); (mkTx 283 151 TATR 0 [284] 1 0 true); (mkTx 285 151 TATR 0 [286] 1 0 true); (mkTx 287 151 TATR 0 [288] 1 0 true)] 29 289 None) [(225, true); (228, true); (11, false); (232, true); (234, true); (236, true); (238, true); (240, true); (242, true); (244, true); (246, true); (248, true); (250, true); (252, true); (254, true); (256, true); (258, true); (260, true); (262, true); (264, true); (266, true); (268, true); (269, true); (271, true); (273, true); (275, true); (277, true); (279, true); (281, true); (283, true); (285, true); (287, true)] [] [([232; 234; 236; 238; 240; 242; 244; 246; 248; 250; 252; 254; 256; 258; 260; 262; 264; 266; 268; 269; 271; 273; 275; 277; 279; 281; 283; 285; 287], 289); ([], 0)] [([228; 232; 234; 236; 238; 240; 242; 244; 246; 248; 250; 252; 254; 256; 258; 260; 262; 264; 266; 268; 269; 271; 273; 275; 277; 279; 281; 283; 285; 287], 290)] true [[4]; [228; 232; 234; 236; 238; 240; 242; 244; 246; 248; 250; 252; 254; 256; 258; 260; 262; 264; 266; 268; 269; 271; 273; 275; 277; 279; 281; 283; 285; 287]; [9; 1190000; 216; 6924; 2650; 7516]; [20148; 0; 20148; 20148; 11392; 3326; 8065; 0; 0; 0; 0; 0; 2412; 2237; 0; 0; 0; 2; 0; 9758781; 2612789; 3]; [0; 29; 289; 290]; [0; 0]; [229]; [0; 1]; []].
+  mkRC (mkView (Some (mkPar 180 8 1175000 10164 8333 952 3200000 false)) false 0 10000 4471 true true) (mkM [(mkTx 181 182 TNormal 0 [183] 0 0 false); (mkTx 184 185 TNormal 60000 [186] 0 0 false)] [183; 186] 60000 true true []) 15 1190000 (Some (mkTx 11 12 TBlockStake 0 [] 0 0 true)) [182] 187 (mkCv (mkE 23268 0 23268 23268 10582 1628 8954 0 0 0 6566 0 1662 374 0 2188 0 2 0 10209503 2612789 0) [(mkTx 188 46 TATR 0 [189] 1 0 false); (mkTx 190 43 TATR 0 [186] 1 0 false); (mkTx 191 49 TATR 0 [192] 1 0 false); (mkTx 193 55 TATR 0 [194] 1 0 true); (mkTx 195 58 TATR 0 [196] 1 0 true); (mkTx 197 61 TATR 0 [198] 1 0 true); (mkTx 199 64 TATR 0 [200] 1 0 true); (mkTx 201 67 TATR 0 [202] 1 0 true); (mkTx 203 70 TATR 0 [204] 1 0 true); (mkTx 205 73 TATR 0 [206] 1 0 true); (mkTx 207 76 TATR 0 [208] 1 0 true); (mkTx 209 85 TATR 0 [210] 1 0 false); (mkTx 211 88 TATR 0 [212] 1 0 false); (mkTx 213 91 TATR 0 [214] 1 0 false); (mkTx 215 94 TATR 0 [216] 1 0 false); (mkTx 217 100 TATR 0 [218] 1 0 false); (mkTx 219 103 TATR 0 [220] 1 0 false); (mkTx 221 106 TATR 0 [222] 1 0 false); (mkTx 223 109 TATR 0 [224] 1 0 false); (mkTx 225 112 TATR 0 [226] 1 0 false); (mkTx 227 118 TATR 0 [228] 1 0 false); (mkTx 229 121 TATR 0 [230] 1 0 false); (mkTx 231 127 TATR 0 [232] 1 0 false); (mkTx 233 130 TATR 0 [234] 1 0 false); (mkTx 235 133 TATR 0 [236] 1 0 false); (mkTx 237 136 TATR 0 [238] 1 0 false); (mkTx 239 139 TATR 0 [240] 1 0 false); (mkTx 241 142 TATR 0 [242] 1 0 false); (mkTx 243 145 TATR 0 [244] 1 0 false); (mkTx 245 148 TATR 0 [246] 1 0 false); (mkTx 247 151 TATR 0 [248] 1 0 true); (mkTx 249 151 TATR 0 [250] 1 0 true); (mkTx 251 151 TATR 0 [252] 1 0 true)] 33 253 None) (mkCv (mkE 23268 0 23268 23268 10582 1628 8954 0 0 0 6566 0 1662 374 0 2188 0 2 0 10209503 2612789 0) [(mkTx 188 46 TATR 0 [189] 1 0 false); (mkTx 190 43 TATR 0 [186] 1 0 false); (mkTx 191 49 TATR 0 [192] 1 0 false); (mkTx 193 55 TATR 0 [194] 1 0 true); (mkTx 195 58 TATR 0 [196] 1 0 true); (mkTx 197 61 TATR 0 [198] 1 0 true); (mkTx 199 64 TATR 0 [200] 1 0 true); (mkTx 201 67 TATR 0 [202] 1 0 true); (mkTx 203 70 TATR 0 [204] 1 0 true); (mkTx 205 73 TATR 0 [206] 1 0 true); (mkTx 207 76 TATR 0 [208] 1 0 true); (mkTx 209 85 TATR 0 [210] 1 0 false); (mkTx 211 88 TATR 0 [212] 1 0 false); (mkTx 213 91 TATR 0 [214] 1 0 false); (mkTx 215 94 TATR 0 [216] 1 0 false); (mkTx 217 100 TATR 0 [218] 1 0 false); (mkTx 219 103 TATR 0 [220] 1 0 false); (mkTx 221 106 TATR 0 [222] 1 0 false); (mkTx 223 109 TATR 0 [224] 1 0 false); (mkTx 225 112 TATR 0 [226] 1 0 false); (mkTx 227 118 TATR 0 [228] 1 0 false); (mkTx 229 121 TATR 0 [230] 1 0 false); (mkTx 231 127 TATR 0 [232] 1 0 false); (mkTx 233 130 TATR 0 [234] 1 0 false); (mkTx 235 133 TATR 0 [236] 1 0 false); (mkTx 237 136 TATR 0 [238] 1 0 false); (mkTx 239 139 TATR 0 [240] 1 0 false); (mkTx 241 142 TATR 0 [242] 1 0 false); (mkTx 243 145 TATR 0 [244] 1 0 false); (mkTx 245 148 TATR 0 [246] 1 0 false); (mkTx 247 151 TATR 0 [248] 1 0 true); (mkTx 249 151 TATR 0 [250] 1 0 true); (mkTx 251 151 TATR 0 [252] 1 0 true)] 33 253 None) [(181, true); (184, false); (11, false); (188, true); (190, true); (191, true); (193, true); (195, true); (197, true); (199, true); (201, true); (203, true); (205, true); (207, true); (209, true); (211, true); (213, true); (215, true); (217, true); (219, true); (221, true); (223, true); (225, true); (227, true); (229, true); (231, true); (233, true); (235, true); (237, true); (239, true); (241, true); (243, true); (245, true); (247, true); (249, true); (251, true)] [] [] [(183, 7); (186, 5); (189, 5); (192, 5); (194, 5); (196, 5); (198, 5); (200, 5); (202, 5); (204, 5); (206, 5); (208, 5); (210, 5); (212, 5); (214, 5); (216, 5); (218, 5); (220, 5); (222, 5); (224, 5); (226, 5); (228, 5); (230, 5); (232, 5); (234, 5); (236, 5); (238, 5); (240, 5); (242, 5); (244, 5); (246, 5); (248, 5); (250, 5); (252, 5)] 3 [([188; 190; 191; 193; 195; 197; 199; 201; 203; 205; 207; 209; 211; 213; 215; 217; 219; 221; 223; 225; 227; 229; 231; 233; 235; 237; 239; 241; 243; 245; 247; 249; 251], 253); ([], 0)] [([181; 188; 190; 191; 193; 195; 197; 199; 201; 203; 205; 207; 209; 211; 213; 215; 217; 219; 221; 223; 225; 227; 229; 231; 233; 235; 237; 239; 241; 243; 245; 247; 249; 251], 254)] true [[4]; [181; 188; 190; 191; 193; 195; 197; 199; 201; 203; 205; 207; 209; 211; 213; 215; 217; 219; 221; 223; 225; 227; 229; 231; 233; 235; 237; 239; 241; 243; 245; 247; 249; 251]; [9; 1190000; 180; 952; 10164; 14899]; [23268; 0; 23268; 23268; 10582; 1628; 8954; 0; 0; 0; 6566; 0; 1662; 374; 0; 2188; 0; 2; 0; 10209503; 2612789; 0]; [0; 33; 253; 254]; [0; 0]; [182]; [0; 1]; []].
 
-(* ok: {"label": "work-gated", "tip": 10, "gap_ms": 10000, "pool_ops": [{"op": "transfer", "payer": 2, "input": "10:9:0 amount 402002", "fee": 5000, "hops": 1, "pooled": true}, {"op": "transfer", "payer": 3, "input": "9:2:0 amount 406403", "fee": 300, "hops": 2, "pooled": true}, {"op": "transfer", "payer": 4, "input": "10:17:0 amount 407004", "fee": 0, "hops": 0, "pooled": true}, {"op": "golden-ticket", "kind": "Valid", "tip_difficulty": 0}], "pool_size": 3, "cached_work": 5150, "work_needed": 2000, "gt_for_tip": true, "outcome": "Accepted", "detail": "block 11 txs(types) [2, 0, 7, 0, 0, 3, 1] producer OnChain second node OnChain; atr multiplier 1; diffs []; create-vs-validate cv []"} *)
+(* aged: {"label": "pooled-dust-input-ages", "tip": 8, "gap_ms": 25000, "pool_ops": [{"op": "transfer", "payer": 2, "input": "5:15:0 amount 396682", "fee": 20000, "hops": 1, "pooled": true}, {"op": "transfer", "payer": 3, "input": "5:20:0 amount 396683", "fee": 20000, "hops": 1, "pooled": true}, {"op": "transfer", "payer": 4, "input": "5:25:0 amount 396684", "fee": 20000, "hops": 1, "pooled": true}, {"op": "transfer-creating-a-60-nolan-output", "payer": 5, "pooled": true}, {"op": "spend-oldest-spendable-output", "payer": 5, "input": "5:1:0 amount 60", "fee": 10, "pooled": true}, {"op": "peer-block", "own_transactions_only": true, "txs": 1, "producer": "OnChain", "second": "OnChain", "pool_after": 5, "cached_work_after": 80010}], "pool_size": 5, "cached_work": 80010, "work_needed": 0, "gt_for_tip": false, "outcome": "Rejected", "detail": "block 9 txs(types) [0, 3, 3, 3, 3, 3, 3, 3, 3, 3, 3, 3, 3, 3, 3, 3, 3, 3, 3, 3, 3, 3, 3, 3, 3, 3, 3, 3] producer Invalid second node Invalid; atr multiplier 1; diffs []; create-vs-validate cv []"} *)
+Definition wit_aged : rcase :=
+  mkRC (mkView (Some (mkPar 201 8 1175000 154480 114482 82878 3200000 false)) false 0 10000 3736 true true) (mkM [(mkTx 202 203 TNormal 20000 [204] 0 0 false); (mkTx 205 206 TNormal 20000 [207] 0 0 false); (mkTx 208 209 TNormal 10 [210] 0 0 false); (mkTx 211 212 TNormal 20000 [213] 0 0 false); (mkTx 214 215 TNormal 20000 [216] 0 0 false)] [204; 207; 210; 213; 216] 80010 true true []) 18 1200000 (Some (mkTx 14 15 TBlockStake 0 [] 0 0 true)) [209] 217 (mkCv (mkE 286630 10 286620 286570 171236 32440 138796 0 0 0 181436 0 29328 9735 0 60478 0 20 0 9556143 2023858 0) [(mkTx 218 61 TATR 0 [219] 1 0 false); (mkTx 220 55 TATR 0 [221] 1 0 false); (mkTx 222 58 TATR 0 [223] 1 0 false); (mkTx 224 52 TATR 0 [225] 1 0 false); (mkTx 226 67 TATR 0 [227] 1 0 true); (mkTx 228 70 TATR 0 [229] 1 0 true); (mkTx 230 73 TATR 0 [231] 1 0 true); (mkTx 232 76 TATR 0 [233] 1 0 true); (mkTx 234 79 TATR 0 [235] 1 0 true); (mkTx 236 82 TATR 0 [237] 1 0 true); (mkTx 238 85 TATR 0 [239] 1 0 true); (mkTx 240 88 TATR 0 [241] 1 0 true); (mkTx 242 91 TATR 0 [243] 1 0 false); (mkTx 244 94 TATR 0 [245] 1 0 false); (mkTx 246 97 TATR 0 [213] 1 0 false); (mkTx 247 106 TATR 0 [248] 1 0 false); (mkTx 249 109 TATR 0 [250] 1 0 false); (mkTx 251 112 TATR 0 [216] 1 0 false); (mkTx 252 121 TATR 0 [253] 1 0 false); (mkTx 254 124 TATR 0 [255] 1 0 false); (mkTx 256 127 TATR 0 [207] 1 0 false); (mkTx 257 136 TATR 0 [258] 1 0 false); (mkTx 259 139 TATR 0 [260] 1 0 false); (mkTx 261 142 TATR 0 [204] 1 0 false); (mkTx 262 151 TATR 0 [263] 1 0 true); (mkTx 264 151 TATR 0 [265] 1 0 true); (mkTx 266 151 TATR 0 [267] 1 0 true)] 27 268 None) (mkCv (mkE 286630 10 286620 286570 171236 32440 138796 0 0 0 181436 0 29328 9735 0 60478 0 20 0 9556143 2023858 0) [(mkTx 218 61 TATR 0 [219] 1 0 false); (mkTx 220 55 TATR 0 [221] 1 0 false); (mkTx 222 58 TATR 0 [223] 1 0 false); (mkTx 224 52 TATR 0 [225] 1 0 false); (mkTx 226 67 TATR 0 [227] 1 0 true); (mkTx 228 70 TATR 0 [229] 1 0 true); (mkTx 230 73 TATR 0 [231] 1 0 true); (mkTx 232 76 TATR 0 [233] 1 0 true); (mkTx 234 79 TATR 0 [235] 1 0 true); (mkTx 236 82 TATR 0 [237] 1 0 true); (mkTx 238 85 TATR 0 [239] 1 0 true); (mkTx 240 88 TATR 0 [241] 1 0 true); (mkTx 242 91 TATR 0 [243] 1 0 false); (mkTx 244 94 TATR 0 [245] 1 0 false); (mkTx 246 97 TATR 0 [213] 1 0 false); (mkTx 247 106 TATR 0 [248] 1 0 false); (mkTx 249 109 TATR 0 [250] 1 0 false); (mkTx 251 112 TATR 0 [216] 1 0 false); (mkTx 252 121 TATR 0 [253] 1 0 false); (mkTx 254 124 TATR 0 [255] 1 0 false); (mkTx 256 127 TATR 0 [207] 1 0 false); (mkTx 257 136 TATR 0 [258] 1 0 false); (mkTx 259 139 TATR 0 [260] 1 0 false); (mkTx 261 142 TATR 0 [204] 1 0 false); (mkTx 262 151 TATR 0 [263] 1 0 true); (mkTx 264 151 TATR 0 [265] 1 0 true); (mkTx 266 151 TATR 0 [267] 1 0 true)] 27 268 None) [(202, false); (205, false); (208, false); (211, false); (214, false); (14, false); (218, true); (220, true); (222, true); (224, true); (226, true); (228, true); (230, true); (232, true); (234, true); (236, true); (238, true); (240, true); (242, true); (244, true); (246, true); (247, true); (249, true); (251, true); (252, true); (254, true); (256, true); (257, true); (259, true); (261, true); (262, true); (264, true); (266, true)] [] [] [(204, 5); (207, 5); (210, 5); (213, 5); (216, 5); (219, 5); (221, 5); (223, 5); (225, 5); (227, 5); (229, 5); (231, 5); (233, 5); (235, 5); (237, 5); (239, 5); (241, 5); (243, 5); (245, 5); (248, 5); (250, 5); (253, 5); (255, 5); (258, 5); (260, 5); (263, 5); (265, 5); (267, 5)] 3 [([218; 220; 222; 224; 226; 228; 230; 232; 234; 236; 238; 240; 242; 244; 246; 247; 249; 251; 252; 254; 256; 257; 259; 261; 262; 264; 266], 268); ([], 0)] [([208; 218; 220; 222; 224; 226; 228; 230; 232; 234; 236; 238; 240; 242; 244; 246; 247; 249; 251; 252; 254; 256; 257; 259; 261; 262; 264; 266], 269)] true [[4]; [208; 218; 220; 222; 224; 226; 228; 230; 232; 234; 236; 238; 240; 242; 244; 246; 247; 249; 251; 252; 254; 256; 257; 259; 261; 262; 264; 266]; [9; 1200000; 201; 82878; 154480; 295918]; [286630; 10; 286620; 286570; 171236; 32440; 138796; 0; 0; 0; 181436; 0; 29328; 9735; 0; 60478; 0; 20; 0; 9556143; 2023858; 0]; [10; 27; 268; 269]; [0; 0]; []; [0; 1]; []].
+
+(* zerogt: {"label": "zero-key-ticket", "tip": 4, "gap_ms": 25000, "pool_ops": [{"op": "transfer", "payer": 2, "input": "1:9:0 amount 401002", "fee": 5000, "hops": 1, "pooled": true}, {"op": "transfer", "payer": 3, "input": "3:3:0 amount 401703", "fee": 300, "hops": 2, "pooled": true}, {"op": "transfer", "payer": 4, "input": "1:29:0 amount 405004", "fee": 0, "hops": 0, "pooled": true}, {"op": "golden-ticket", "kind": "ZeroKey", "tip_difficulty": 0}], "pool_size": 3, "cached_work": 5150, "work_needed": 0, "gt_for_tip": true, "outcome": "Rejected", "detail": "block 5 txs(types) [2, 0, 0, 0, 1] producer Invalid second node Invalid; atr multiplier 1; diffs []; create-vs-validate cv []"} *)
+Definition wit_zerogt : rcase :=
+  mkRC (mkView (Some (mkPar 40 4 1075000 0 2120 5300 20000000 false)) false 0 10000 2103 true true) (mkM [(mkTx 42 43 TNormal 0 [44] 0 0 false); (mkTx 45 46 TNormal 150 [47] 0 0 false); (mkTx 48 49 TNormal 5000 [50] 0 0 false)] [44; 47; 50] 5150 true true [(40, mkTx 51 52 TGoldenTicket 0 [] 0 40 true)]) 15 1100000 (Some (mkTx 11 12 TBlockStake 0 [] 0 0 true)) [46; 49; 43] 53 (mkCv (mkE 5300 5300 0 5300 3128 3128 0 5300 2650 2650 0 0 1264 734 530 0 0 1 3 0 12649111 0) [] 0 0 (Some (mkTx 54 0 TFee 0 [] 0 0 true))) (mkCv (mkE 5300 5300 0 5300 3128 3128 0 5300 2650 2650 0 0 1264 734 530 0 0 1 3 0 12649111 0) [] 0 0 (Some (mkTx 54 0 TFee 0 [] 0 0 true))) [(42, true); (45, true); (48, true); (11, false); (51, true); (54, true)] [(51, false)] [(51, true)] [(44, 1); (47, 3); (50, 1)] 5 [([], 0)] [([51; 45; 48; 42; 54], 56)] true [[4]; [51; 45; 48; 42; 54]; [5; 1100000; 40; 0; 2650; 2120]; [5300; 5300; 0; 5300; 3128; 3128; 0; 5300; 2650; 2650; 0; 0; 1264; 734; 530; 0; 0; 1; 3; 0; 12649111; 0]; [5150; 0; 0; 56]; [0; 0]; [43; 46; 49]; [5150; 1]; [40]].
+
+(* ok: {"label": "work-gated", "tip": 10, "gap_ms": 10000, "pool_ops": [{"op": "transfer", "payer": 2, "input": "10:9:0 amount 402002", "fee": 5000, "hops": 1, "pooled": true}, {"op": "transfer", "payer": 3, "input": "9:4:0 amount 406403", "fee": 300, "hops": 2, "pooled": true}, {"op": "transfer", "payer": 4, "input": "10:17:0 amount 407004", "fee": 0, "hops": 0, "pooled": true}, {"op": "golden-ticket", "kind": "Valid", "tip_difficulty": 0}], "pool_size": 3, "cached_work": 5150, "work_needed": 2000, "gt_for_tip": true, "outcome": "Accepted", "detail": "block 11 txs(types) [2, 7, 0, 0, 0, 3, 1] producer OnChain second node OnChain; atr multiplier 1; diffs []; create-vs-validate cv []"} *)
 Definition wit_ok : rcase :=
-  mkRC (mkView (Some (mkPar 135 10 1124998 7922 3426 5300 20001000 false)) false 50000 10000 3915 true true) (mkM [(mkTx 204 205 TNormal 5000 [206] 0 0 false); (mkTx 207 208 TNormal 150 [209] 0 0 false); (mkTx 210 211 TNormal 0 [212] 0 0 false)] [206; 209; 212] 5150 true true [(135, mkTx 213 214 TGoldenTicket 0 [] 0 135 true)]) 16 1134998 (Some (mkTx 76 77 TBlockStake 0 [215] 0 0 true)) [208; 77; 205; 211] 216 (mkCv (mkE 5300 5300 0 5300 3903 3903 0 5300 2650 2650 0 0 1895 969 331 0 0 0 3 1912930 20001000 0) [(mkTx 217 12 TATR 0 [218] 1 0 true)] 1 221 (Some (mkTx 219 0 TFee 0 [] 0 0 true))) (mkCv (mkE 5300 5300 0 5300 3903 3903 0 5300 2650 2650 0 0 1895 969 331 0 0 0 3 1912930 20001000 0) [(mkTx 217 12 TATR 0 [218] 1 0 true)] 1 221 (Some (mkTx 219 0 TFee 0 [] 0 0 true))) [(204, true); (207, true); (210, true); (76, true); (213, true); (217, true); (219, true)] [(213, true)] [([217], 221); ([], 0)] [([213; 207; 76; 204; 210; 217; 219], 222)] true [[4]; [213; 207; 76; 204; 210; 217; 219]; [11; 1134998; 135; 0; 10572; 3426]; [5300; 5300; 0; 5300; 3903; 3903; 0; 5300; 2650; 2650; 0; 0; 1895; 969; 331; 0; 0; 0; 3; 1912930; 20001000; 0]; [5150; 1; 221; 222]; [1; 1]; []; [0; 0]; []].
+  mkRC (mkView (Some (mkPar 135 10 1124998 7922 3426 5300 20001000 false)) false 50000 10000 3131 true true) (mkM [(mkTx 204 205 TNormal 5000 [206] 0 0 false); (mkTx 207 208 TNormal 150 [209] 0 0 false); (mkTx 210 211 TNormal 0 [212] 0 0 false)] [206; 209; 212] 5150 true true [(135, mkTx 213 214 TGoldenTicket 0 [] 0 135 true)]) 16 1134998 (Some (mkTx 76 77 TBlockStake 0 [215] 0 0 true)) [77; 208; 205; 211] 216 (mkCv (mkE 5300 5300 0 5300 3903 3903 0 5300 2650 2650 0 0 1895 969 331 0 0 0 3 1912930 20001000 0) [(mkTx 217 12 TATR 0 [218] 1 0 true)] 1 221 (Some (mkTx 219 0 TFee 0 [] 0 0 true))) (mkCv (mkE 5300 5300 0 5300 3903 3903 0 5300 2650 2650 0 0 1895 969 331 0 0 0 3 1912930 20001000 0) [(mkTx 217 12 TATR 0 [218] 1 0 true)] 1 221 (Some (mkTx 219 0 TFee 0 [] 0 0 true))) [(204, true); (207, true); (210, true); (76, true); (213, true); (217, true); (219, true)] [(213, true)] [(213, true)] [(206, 10); (209, 9); (212, 10); (215, 7); (218, 2)] 8 [([217], 221); ([], 0)] [([213; 76; 207; 204; 210; 217; 219], 222)] true [[4]; [213; 76; 207; 204; 210; 217; 219]; [11; 1134998; 135; 0; 10572; 3426]; [5300; 5300; 0; 5300; 3903; 3903; 0; 5300; 2650; 2650; 0; 0; 1895; 969; 331; 0; 0; 0; 3; 1912930; 20001000; 0]; [5150; 1; 221; 222]; [1; 1]; []; [0; 0]; []].
 
 
-(* STILL REFUTED.  The full statement fails: parent.treasury >= genesis_period * parent.avg_nolan_rebroadcast_per_block > 0
-   and one output is rebroadcast.  cv's own rebroadcast hash (taken before the 5%-of-treasury
-   cap rewrites the output amounts; in create the cap compares with the still-zero header
-   treasury) is not the hash of the transactions it returns, and the rebroadcast's input
-   carries the paid-out amount: both nodes reject the producer's block *)
-Example C07_produced_validates_refuted_cap : exists b,
-  rc_created wit_cap = Ok b
-  /\ rc_known wit_cap b = true
-  /\ agreesb true (lookup_l (rc_hchain wit_cap)) (rc_cvC wit_cap) (rc_cvV wit_cap) = false
-  /\ rc_accepts wn0 wit_cap b = Ok false
-  /\ run_rcase wn0 wit_cap = rc_expected wit_cap.
-Proof. eexists. split; [vm_compute; reflexivity|]. repeat split; vm_compute; reflexivity. Qed.
+Definition wn_leftout : N -> N -> N -> N -> N := fun _ _ _ _ => 213.
+Definition next_of (c : rcase) : N := match v_tip (rc_view c) with Some p => par_id p + 1 | None => 1 end.
 
 (* STILL REFUTED.  Issuance-typed transaction in the pool *)
 Example C07_produced_validates_refuted_issuance : exists b,
   rc_created wit_issuance = Ok b
   /\ 0 < count_type TIssuance (rc_drained wit_issuance)
-  /\ rc_known wit_issuance b = true
+  /\ rc_known wn0 wit_issuance b = true
   /\ rc_accepts wn0 wit_issuance b = Ok false
   /\ run_rcase wn0 wit_issuance = rc_expected wit_issuance.
 Proof. eexists. split; [vm_compute; reflexivity|]. repeat split; vm_compute; reflexivity. Qed.
 
-(* STILL REFUTED (new with fix 1214e31).  The only routing work of the pool sits in a transaction
-   that Block::create leaves out (it spends an output this block rebroadcasts): can_bundle_block
-   passed on the cached work 60000 >= 213 needed, the block is built from what is left (work 0)
-   and fails the routing-work check of its own validation on both nodes *)
-Definition wn_leftout : N -> N -> N -> N -> N := fun _ _ _ _ => 213.
-Example C07_left_out_work_refuted : exists b w,
-  rc_created wit_leftout = Ok b
+(* STILL REFUTED.  The pool is not young: the transaction that carries the only routing work was
+   pooled while its input (block 5) could still be spent in the next block; then another producer's
+   block arrived, remove_block_transactions re-validated the pool against the utxoset only, and the
+   input now belongs to the block that this block rebroadcasts.  can_bundle_block passes on the cached
+   work 60000 >= 213, Block::create leaves the transaction out, the block carries work 0 and fails its
+   own validation on both nodes *)
+Example C07_pool_not_young_refuted_left_out : exists b w,
+  young_pool (rc_key_blockf wit_leftout) (rc_gp wit_leftout) (next_of wit_leftout) (m_txs (rc_pool wit_leftout)) = false
+  /\ rebroadcasts_due (rc_key_blockf wit_leftout) (rc_gp wit_leftout) (next_of wit_leftout) (rc_cvC wit_leftout) = true
+  /\ rc_created wit_leftout = Ok b
   /\ can_bundle unit (rc_viewf wit_leftout) wn_leftout rc_node (rc_pool wit_leftout) (rc_ts wit_leftout)
                 (is_some (rc_gt wit_leftout)) = Some w
-  /\ rc_known wit_leftout b = false
+  /\ rc_known wn_leftout wit_leftout b = true
   /\ nsum (map t_work (b_txs (fst (rc_pre wit_leftout)))) < 213 <= w
   /\ Nlen (b_txs (fst (rc_pre wit_leftout))) < Nlen (rc_drained wit_leftout)
   /\ rc_accepts wn_leftout wit_leftout b = Ok false
   /\ run_rcase wn_leftout wit_leftout = rc_expected wit_leftout.
 Proof.
   eexists. eexists. split; [vm_compute; reflexivity|]. split; [vm_compute; reflexivity|].
+  split; [vm_compute; reflexivity|]. split; [vm_compute; reflexivity|].
   repeat split; vm_compute; try reflexivity; try discriminate.
 Qed.
+
+(* STILL REFUTED.  Same cause, other symptom: the aged input is a 60-nolan output that the next block
+   does not rebroadcast (it is collected as fees), so create keeps the transaction -- and
+   Transaction::validate (bb88717) refuses it inside the block: both nodes reject *)
+Example C07_pool_not_young_refuted_invalid_tx : exists b,
+  young_pool (rc_key_blockf wit_aged) (rc_gp wit_aged) (next_of wit_aged) (m_txs (rc_pool wit_aged)) = false
+  /\ rc_created wit_aged = Ok b
+  /\ forallb (rc_validf wit_aged tt []) (b_txs b) = false
+  /\ rc_known wn0 wit_aged b = true
+  /\ rc_accepts wn0 wit_aged b = Ok false
+  /\ run_rcase wn0 wit_aged = rc_expected wit_aged.
+Proof. eexists. split; [vm_compute; reflexivity|]. split; [vm_compute; reflexivity|]. repeat split; vm_compute; reflexivity. Qed.
+
+(* STILL REFUTED (b8552b5 x e0300b2).  The pooled ticket for the tip solves it and names the all-zero
+   key: it passes the screen of bundle_block, Block::validate refuses it, the ticket stays *)
+Example C07_zero_key_ticket_refuted : exists b g,
+  pick_gt (rc_pool wit_zerogt) (rc_tip_hash wit_zerogt) = Some g
+  /\ rc_gtsf wit_zerogt tt g = true /\ rc_gtf wit_zerogt tt g = false
+  /\ rc_gt wit_zerogt = Some g
+  /\ rc_created wit_zerogt = Ok b
+  /\ rc_known wn0 wit_zerogt b = true
+  /\ rc_accepts wn0 wit_zerogt b = Ok false
+  /\ nth 8 (run_rcase wn0 wit_zerogt) [] <> []
+  /\ run_rcase wn0 wit_zerogt = rc_expected wit_zerogt.
+Proof.
+  eexists. eexists. split; [vm_compute; reflexivity|]. split; [vm_compute; reflexivity|].
+  split; [vm_compute; reflexivity|]. split; [vm_compute; reflexivity|]. split; [vm_compute; reflexivity|].
+  repeat split; try (vm_compute; reflexivity). vm_compute. discriminate.
+Qed.
+
+(* REGRESSION (fix e1b5241; was C07_produced_validates_refuted_cap).  Payout multiplier > 1 and a
+   rebroadcast in the block: cv of the finished block agrees with the header, the rebroadcast
+   validates, both nodes accept *)
+Example C07_payout_cap_regression : exists b,
+  rc_created wit_cap = Ok b
+  /\ c_rebroadcasts (rc_cvC wit_cap) <> []
+  /\ agreesb true (lookup_l (rc_hchain wit_cap)) (rc_cvC wit_cap) (rc_cvV wit_cap) = true
+  /\ rc_known wn0 wit_cap b = false
+  /\ rc_accepts wn0 wit_cap b = Ok true
+  /\ run_rcase wn0 wit_cap = rc_expected wit_cap.
+Proof. eexists. split; [vm_compute; reflexivity|]. repeat split; try (vm_compute; reflexivity). vm_compute. discriminate. Qed.
 
 (* REGRESSION (fix e0300b2; was C07_produced_validates_refuted_gt).  The pool holds a ticket for
    the tip whose solution does not validate: bundle_block goes on without a ticket, the block is
    accepted by both nodes, and the ticket is gone from the pool *)
 Example C07_invalid_ticket_regression : exists g,
-  pick_gt (rc_pool wit_gt) (rc_tip_hash wit_gt) = Some g /\ rc_gtf wit_gt tt g = false
+  pick_gt (rc_pool wit_gt) (rc_tip_hash wit_gt) = Some g /\ rc_gtsf wit_gt tt g = false
   /\ rc_gt wit_gt = None
   /\ hd [] (run_rcase wn0 wit_gt) = [4]
   /\ nth 5 (run_rcase wn0 wit_gt) [] = [1; 1]
@@ -369,32 +474,10 @@ Example C07_foreign_stake_regression : exists b,
   rc_created wit_stake = Ok b
   /\ v_stake_req (rc_view wit_stake) <> 0
   /\ count_type TBlockStake (b_txs b) = 1
-  /\ rc_known wit_stake b = false
+  /\ rc_known wn0 wit_stake b = false
   /\ rc_accepts wn0 wit_stake b = Ok true
   /\ run_rcase wn0 wit_stake = rc_expected wit_stake.
 Proof. eexists. split; [vm_compute; reflexivity|]. repeat split; try (vm_compute; reflexivity). vm_compute. discriminate. Qed.
-
-(* REGRESSION (fix 1214e31; was C07_rebroadcast_clash_witness).  A pooled transaction spends an
-   output that this block rebroadcasts: create leaves it out, the block is built from the rest
-   and accepted by both nodes *)
-Example C07_rebroadcast_clash_regression : exists b,
-  rc_created wit_clash = Ok b
-  /\ existsb (collides (rb_inputs (rc_cvC wit_clash))) (rc_drained wit_clash) = true
-  /\ existsb (collides (rb_inputs (rc_cvC wit_clash))) (filter (fun t => negb (is_type TATR t)) (b_txs b)) = false
-  /\ rc_accepts wn0 wit_clash b = Ok true
-  /\ run_rcase wn0 wit_clash = rc_expected wit_clash.
-Proof. eexists. split; [vm_compute; reflexivity|]. repeat split; vm_compute; reflexivity. Qed.
-
-(* STILL REFUTED (supply, C02's subject).  A pooled transaction spends an output that is due at
-   this block but too small to be rebroadcast: no double-spend signal, the block validates on both
-   nodes, and both panic in check_total_supply *)
-Example C07_dust_spend_witness : exists b,
-  rc_created wit_dust = Ok b
-  /\ rc_known wit_dust b = false
-  /\ rc_supply_ok wit_dust = false
-  /\ rc_accepts wn0 wit_dust b = Panic SITE_SUPPLY
-  /\ run_rcase wn0 wit_dust = rc_expected wit_dust.
-Proof. eexists. split; [vm_compute; reflexivity|]. repeat split; vm_compute; reflexivity. Qed.
 
 (* REGRESSION (fix f62222f).  Timestamp not after the tip's: no block, pool unchanged *)
 Example C07_timestamp_declined_witness :
@@ -406,17 +489,20 @@ Proof. repeat split; vm_compute; try reflexivity; discriminate. Qed.
 (* non-vacuity: a recorded round (golden ticket, staking transaction, three transfers,
    rebroadcasts, fee transaction; staking on, window wrapped) that is outside Known_C07,
    meets the structural hypotheses, and is accepted by both nodes *)
+Definition wn_ok : N -> N -> N -> N -> N := fun _ _ _ _ => 2000.
 Example C07_example : exists b p,
   v_tip (rc_view wit_ok) = Some p
   /\ rc_created wit_ok = Ok b
-  /\ rc_known wit_ok b = false
+  /\ rc_known wn_ok wit_ok b = false
+  /\ agreesb true (lookup_l (rc_hchain wit_ok)) (rc_cvC wit_ok) (rc_cvV wit_ok) = true
   /\ cv_types_ok (rc_cvC wit_ok) = true
   /\ is_some (c_fee_tx (rc_cvC wit_ok)) = true /\ is_some (rc_gt wit_ok) = true
   /\ c_rebroadcasts (rc_cvC wit_ok) <> []
   /\ pool_types_ok (rc_drained wit_ok) = true
+  /\ young_pool (rc_key_blockf wit_ok) (rc_gp wit_ok) (next_of wit_ok) (rc_drained wit_ok) = true
   /\ rc_drained wit_ok <> []
-  /\ rc_accepts wn0 wit_ok b = Ok true
-  /\ run_rcase wn0 wit_ok = rc_expected wit_ok.
+  /\ rc_accepts wn_ok wit_ok b = Ok true
+  /\ run_rcase wn_ok wit_ok = rc_expected wit_ok.
 Proof.
   eexists. eexists. split; [vm_compute; reflexivity|]. split; [vm_compute; reflexivity|].
   repeat split; try (vm_compute; reflexivity); vm_compute; discriminate.
@@ -441,7 +527,7 @@ Example C07_gate_needs_honest_cache :
   let nd := mkNode unit tt [] in
   can_bundle unit vw wn nd m 1100 false = Some 60
   /\ exists b, create unit vw cvf h0 h0 true nd 3 1100 None [t] = Ok b
-       /\ Known_C07 unit vw cvf valid h0 true nd 3 1100 None [t] b = false
+       /\ Known_C07 unit vw cvf valid gtf (fun _ _ _ _ : N => 0) true nd 3 1100 None [t] b = false
        /\ validate unit vw cvf valid gtf wn h0 true nd true b = Ok false.
 Proof. cbv zeta. split; [vm_compute; reflexivity|]. eexists. split; [vm_compute; reflexivity|]. split; vm_compute; reflexivity. Qed.
 
@@ -455,17 +541,22 @@ Print Assumptions C07_second_node.
 Print Assumptions C07_invalid_gt_rejected.
 Print Assumptions C07_bundled_ticket_solves.
 Print Assumptions C07_invalid_gt_recovers.
+Print Assumptions C07_screened_bad_ticket_stays.
+Print Assumptions C07_failure_keeps_ticket.
+Print Assumptions C07_young_pool_kept.
+Print Assumptions C07_intake_keeps_young.
+Print Assumptions C07_young_pool_nothing_left_out.
 Print Assumptions C07_foreign_stake_refused.
 Print Assumptions C07_bundle_ts_declines.
 Print Assumptions C07_create_error_is_double_spend.
 Print Assumptions C07_create_failure_restores.
-Print Assumptions C07_produced_validates_refuted_cap.
 Print Assumptions C07_produced_validates_refuted_issuance.
-Print Assumptions C07_left_out_work_refuted.
+Print Assumptions C07_pool_not_young_refuted_left_out.
+Print Assumptions C07_pool_not_young_refuted_invalid_tx.
+Print Assumptions C07_zero_key_ticket_refuted.
+Print Assumptions C07_payout_cap_regression.
 Print Assumptions C07_invalid_ticket_regression.
 Print Assumptions C07_foreign_stake_regression.
-Print Assumptions C07_rebroadcast_clash_regression.
-Print Assumptions C07_dust_spend_witness.
 Print Assumptions C07_timestamp_declined_witness.
 Print Assumptions C07_example.
 Print Assumptions C07_gate_needs_honest_cache.
